@@ -732,6 +732,8 @@ class Machine:
             hi, mid, lo = self.fresh('bh'), self.fresh('bm'), self.fresh('bl')
             self.assume(z3.And(v == hi * 2 ** (a + b) + mid * 2 ** a + lo, lo >= 0, lo < 2 ** a, mid >= 0, mid < 2 ** b, hi >= 0))
             return mid * 2 ** a if a else mid
+        if op in ('Shr', 'ShrUnchecked', 'Shl', 'ShlUnchecked') and is_sym(y):
+            y = self.concretize(y, limit=130)       # shift amounts are small: fork over the feasible ones
         if op in ('Shr', 'ShrUnchecked') and not is_sym(y):
             if not is_sym(x):
                 return x >> y
